@@ -680,18 +680,24 @@ impl SinkWaitingResponse {
         let mut body_length = None;
         let mut drop_headers =
             HashSet::from(["proxy-connection", "keep-alive", "upgrade"].map(|h| h.to_string()));
+        // the headers nominated by `Connection` are hop-by-hop wherever they stand
+        for h in response
+            .headers
+            .iter()
+            .filter(|h| h.name.eq_ignore_ascii_case("connection"))
+        {
+            if let Ok(x) = std::str::from_utf8(h.value) {
+                drop_headers.extend(
+                    x.split(',')
+                        .map(|x| x.trim().to_lowercase())
+                        .filter(|x| x != "close"),
+                );
+            }
+        }
         for h in response.headers {
             match (h.name.to_ascii_lowercase().as_str(), self.request_version) {
                 (x, _) if drop_headers.contains(x) => (),
-                ("connection", _) => {
-                    if let Ok(x) = std::str::from_utf8(h.value) {
-                        drop_headers.extend(
-                            x.split(',')
-                                .filter(|x| *x != "close")
-                                .map(|x| x.trim().to_lowercase()),
-                        );
-                    }
-                }
+                ("connection", _) => (),
                 ("transfer-encoding", http::Version::HTTP_2 | http::Version::HTTP_3) => {
                     if h.value == "chunked".as_bytes() {
                         body_length = Some(BodyLength::Chunked);
